@@ -265,6 +265,76 @@ class SeveralSearchers(object):
                 shutil.rmtree(d, ignore_errors=True)
 
 
+class LookAlikeSearchers(object):
+    name = 'look-alike-searchers-on-one-compiler'
+    describe = ('ONE MibCompiler with two searchers of one class that print alike: two StubSearchers with different lists, two '
+                'AnyFileSearchers over one directory told different extensions, two PyFileSearchers over one directory - added in '
+                'one addSearchers() call or in two; modules A (imports B) and B each covered by the first, the second, both or '
+                'none; rebuild on/off: a module is left alone exactly when SOME configured searcher vouches for it (stub lists '
+                'also under rebuild)')
+
+    def blocks(self, tier):
+        return [{'kind': k} for k in ('stub', 'anyfile', 'pyfile')]
+
+    def cases(self, block, tier):
+        for ca in range(4):
+            for cb in range(4):
+                for calls in (1, 2):
+                    for rebuild in (False, True):
+                        yield {'kind': block['kind'], 'A': ca, 'B': cb, 'calls': calls, 'rebuild': rebuild}
+
+    def run_case(self, case):
+        from pysmi.searcher.anyfile import AnyFileSearcher
+        from pysmi.searcher.pyfile import PyFileSearcher
+        from pysmi.searcher.stub import StubSearcher
+        d = scratch()
+        try:
+            cover = {'A': case['A'], 'B': case['B']}      # bit 0: the first searcher vouches, bit 1: the second
+            if case['kind'] == 'stub':
+                ss = [StubSearcher(*[m for m in 'AB' if cover[m] & 1]), StubSearcher(*[m for m in 'AB' if cover[m] & 2])]
+            elif case['kind'] == 'anyfile':
+                for m in 'AB':
+                    for bit, ext in ((1, '.json'), (2, '.txt')):
+                        if cover[m] & bit:
+                            with open(os.path.join(d, m + ext), 'w') as f:
+                                f.write('copy')
+                            os.utime(os.path.join(d, m + ext), (SRC_MTIME + 100, SRC_MTIME + 100))
+                ss = [AnyFileSearcher(d).setOptions(exts=['.json']), AnyFileSearcher(d).setOptions(exts=['.txt'])]
+            else:
+                for m in 'AB':
+                    if cover[m]:
+                        with open(os.path.join(d, m + '.py'), 'w') as f:
+                            f.write('# copy')
+                        os.utime(os.path.join(d, m + '.py'), (SRC_MTIME + 100, SRC_MTIME + 100))
+                ss = [PyFileSearcher(d), PyFileSearcher(d)]
+            texts = env.base_texts()
+            texts['A'] = 'A DEFINITIONS ::= BEGIN\nIMPORTS b FROM B;\na OBJECT IDENTIFIER ::= { b 1 }\nEND\n'
+            texts['B'] = 'B DEFINITIONS ::= BEGIN\nIMPORTS enterprises FROM SNMPv2-SMI;\nb OBJECT IDENTIFIER ::= { enterprises 9 }\nEND\n'
+            w = env.CaptureWriter()
+            parser = env.shared_parser('smiV2')
+            parser.reset()
+            comp = env.MibCompiler(parser, env.make_codegen('json'), w)
+            comp.addSources(env.DictReader(texts, mtime=SRC_MTIME))
+            comp.addSearchers(env.StubSearcher(*env.BASE_NAMES))
+            if case['calls'] == 1:
+                comp.addSearchers(*ss)
+            else:
+                comp.addSearchers(ss[0])
+                comp.addSearchers(ss[1])
+            res = comp.compile('A', rebuild=case['rebuild'])
+            vs = []
+            for m in 'AB':
+                vouched = bool(cover[m]) and (case['kind'] == 'stub' or not case['rebuild'])
+                want = 'untouched' if vouched else 'compiled'
+                if str(res.get(m)) != want:
+                    vs.append(('C10|look-alike-searchers|%s|%s-where-%s|%s' % (
+                        case['kind'], res.get(m), want, 'covered-by-the-%s' % {0: 'none', 1: 'first', 2: 'second', 3: 'both'}[cover[m]]),
+                        'module %s, case %r, statuses %r' % (m, case, dict((k, str(v)) for k, v in res.items()))))
+            return repr(sorted((k, str(v)) for k, v in res.items() if k in 'AB')), vs, 1
+        finally:
+            shutil.rmtree(d, ignore_errors=True)
+
+
 class StubNames(object):
     name = 'stub-lists-and-name-fragments'
     describe = ('the real StubSearcher over the stub list of the pysnmp code generator and over short lists: asked for every listed '
@@ -545,5 +615,5 @@ def _borrowed_copy_ages():
     return BorrowedCopyAges()
 
 
-FAMILIES = [SearcherLists(), FileSearchers(), SeveralSearchers(), StubNames(), ReaderToSearcher(), NoDepsFileNames(), SearcherHistories(),
+FAMILIES = [SearcherLists(), FileSearchers(), SeveralSearchers(), LookAlikeSearchers(), StubNames(), ReaderToSearcher(), NoDepsFileNames(), SearcherHistories(),
             _borrowed_copy_ages()]
